@@ -202,7 +202,7 @@ def check(cx):
                  "every success path", floor=1)
     f = cx.guard(r5, "insert", p.fn, "runtime::dml::DmlExecutor::insert")
     if f:
-        cx.verdict(p.all_success_paths_call(f, {"schema::catalog::Catalog::update_relation"}, 0), r5, "insert", f.where(),
+        cx.verdict(p.all_success_paths_call(f, p.must_reach_set({"schema::catalog::Catalog::update_relation"}), 0), r5, "insert", f.where(),
                    "update_relation on every success path", "INSERT can succeed without persisting the next row id: row ids repeat after reopen")
 
     # ---- thorough: no-flush configuration -------------------------------------------------------------------
